@@ -73,10 +73,25 @@ def rule_regexcfg(E, R):
         d = dict((m, a) for m, a in cc)
         R.check(d.get("match_kind") == ["LeftmostFirst"], rule, RX + "::meta_config", "leftmost-first match semantics", str(d.get("match_kind")), hm["span"])
         R.check(d.get("utf8_empty") == [False], rule, RX + "::meta_config", "utf8_empty(false): empty matches may split code points (bytes)", str(d.get("utf8_empty")), hm["span"])
-        R.check(d.get("nfa_size_limit") == ["Some(regex_compiled_size_limit)"], rule, RX + "::meta_config",
-                "compiled-size limit is the parser's regex_compiled_size_limit", str(d.get("nfa_size_limit")), hm["span"])
-        R.check(d.get("hybrid_cache_capacity") == ["regex_dfa_size_limit"], rule, RX + "::meta_config",
-                "lazy-DFA cache capacity is the parser's regex_dfa_size_limit", str(d.get("hybrid_cache_capacity")), hm["span"])
+        # the two limits are fields of the settings handed to Regex::new, whether meta_config receives the settings or the
+        # two numbers (it is analysed inlined into Regex::new)
+        hn_ = E.hir(RX + "::new")
+        lim = {}
+        if hn_:
+            import sem
+            S = sem.Sem(E, hn_)
+            for x in S.sites():
+                if x.node.get("k") == "MethodCall" and x.node["m"] in ("nfa_size_limit", "hybrid_cache_capacity") and x.node.get("args"):
+                    a_ = sem.peel(x.node["args"][0])
+                    if a_.get("k") == "Call" and norm(a_.get("callee", "")) == "core::option::Option::Some":
+                        a_ = sem.peel(a_["args"][0])
+                    v_ = strip(S.resolve(a_, x.frame).node)
+                    if v_.get("k") == "Field" and sem.param_index(S, v_["e"], S.resolve(a_, x.frame).frame) == 2:
+                        lim[x.node["m"]] = v_["name"]
+        R.check(lim.get("nfa_size_limit") == "regex_compiled_size_limit", rule, RX + "::meta_config",
+                "compiled-size limit is the parser's regex_compiled_size_limit", str(lim), hm["span"])
+        R.check(lim.get("hybrid_cache_capacity") == "regex_dfa_size_limit", rule, RX + "::meta_config",
+                "lazy-DFA cache capacity is the parser's regex_dfa_size_limit", str(lim), hm["span"])
     else:
         R.cannot(rule, RX + "::meta_config", "anchor not found")
     hn = E.hir(RX + "::new")
@@ -90,7 +105,8 @@ def rule_regexcfg(E, R):
         R.check(ok, rule, RX + "::new", "the regex is built from the pattern with exactly these two configurations", where=hn["span"])
         # settings are forwarded
         mc = [c for c in exprs(hn["body"], "Call") if norm(c.get("callee", "")) == RX + "::meta_config"]
-        R.check(len(mc) == 1 and is_param(mc[0]["args"][0], hn, 2), rule, RX + "::new", "limits come from the caller's settings", where=hn["span"])
+        R.check(len(mc) == 1 and all(any(is_param(p_, hn, 2) for p_ in exprs(a_, "Path")) for a_ in mc[0]["args"]), rule, RX + "::new",
+                "limits come from the caller's settings", where=hn["span"])
         # size-limit error classified
         ok = any(c["m"] == "size_limit" for c in exprs(hn["body"], "MethodCall")) and \
             any(last_seg(norm(c.get("callee", ""))) == "CompiledTooBig" for c in exprs(hn["body"], "Call"))
